@@ -20,6 +20,20 @@ fn c14_decode_table() {
     kani::cover!(i == 63);
 }
 
+// value table as specified in the Verus units (b64_dec_spec.inc): inverse alphabet, 0 for everything else
+fn dec_val(c: u8) -> u8 {
+    if c >= 65 && c <= 90 { c - 65 } else if c >= 97 && c <= 122 { c - 71 } else if c >= 48 && c <= 57 { c + 4 } else if c == 43 { 62 } else if c == 47 { 63 } else { 0 }
+}
+
+//# kind=complete tier=quick props=C14 fns=BASE64_DECODE | BASE64_DECODE[c] == dec_val(c) for all 256 byte values (discharges the specification of `b64_dec_lookup` assumed by the Verus unit base64dec)
+#[kani::proof]
+#[kani::unwind(2)]
+fn c14_decode_table_full() {
+    let c: u8 = kani::any();
+    assert!(BASE64_DECODE[c as usize] == dec_val(c));
+    kani::cover!(c == b'=');
+}
+
 //# kind=complete tier=quick props=C14 fns=Base64Decoder::decode_u8x4,Base64Decoder::decode_size | decode_u8x4(enc3(a,b,c)) == [a,b,c] for all 2^24 groups; padded quanta `xx==` / `xxx=` give size 1 / 2 and the right leading bytes; decode_size is 3 without padding
 #[kani::proof]
 #[kani::unwind(6)]
